@@ -231,3 +231,303 @@ def run_ops(fmt, ops, reopen_every=5, trace=None):
         return out
     finally:
         shutil.rmtree(base, ignore_errors=True)
+
+
+def impl(inp):
+    try:
+        return run_ops(inp["fmt"], inp["ops"], reopen_every=inp.get("reopen_every", 5))
+    except AssertionError:
+        raise
+    except Exception as e:      # an exception escaping an *observation* (not an op) is a driver error
+        raise
+
+
+# --------------------------------------------------------------------------
+# framework interface
+# --------------------------------------------------------------------------
+
+COQ = {"property_file": "Properties/C09.v",
+       "imports": "From BV Require Import Model.WT."}
+META = {
+    "level": "translation_validation",
+    "title": "Working trees behave like an abstract versioned file system",
+    "technique": ("refinement run: differential operation sequences on real dirstate (2a) and git working trees "
+                  "against a Coq specification machine (vm_compute), plus Coq laws of the specification"),
+    "level_text": ("A short abstract specification machine {disk; versioned tree; basis} with a per-format parameter "
+                   "(dirstate ids / git paths) is defined in Coq; its laws (every operation keeps the versioned tree valid "
+                   "for arbitrary sequences, status is sound and complete, commit-then-clean, revert-restores-basis, "
+                   "re-open identity) are machine-checked. The implementation is tied to the machine only by differential "
+                   "operation sequences (<=25 ops over <=6 names) on real trees: after every operation the error class, all "
+                   "versioned paths with kind/bytes/exec bit, iter_changes against the basis and the unversioned disk content "
+                   "are compared; every 5th operation the tree is closed and re-opened."),
+    "level_note": ("Not a proof about breezy: bounded sampling of operation sequences. Trusted: Coq kernel, vm_compute, "
+                   "the driver/canonicaliser in harness/props/c09.py (git rename/copy detection rows are split into "
+                   "add+delete), the Python mirror only for generator steering and for locating 'unmodelled' steps."),
+    "design_ref": "DESIGN.md §5 C09",
+    "trusted_base": ["hand-written specification coq/Model/WT.v", "correspondence harness harness/props/c09.py",
+                     "POSIX file system semantics of the scratch directory (rename into own subtree = EINVAL, ENOENT/ENOTDIR)"],
+    "assumptions": ["case-sensitive POSIX file system, umask 022, process may chmod files",
+                    "bzrformats dirstate and dulwich index/object store persist what they are given (exercised by the re-open steps)",
+                    "dulwich RenameDetector only pairs added entries with deleted/modified ones (its output is canonicalised away)",
+                    "no symlinks, no nested trees, no content filters, no ignore rules"],
+    "rule": ("seeded random operation sequences steered to be mostly valid (about 70% of refused operations are re-drawn), "
+             "length 8..25, <=6 names, depth <=3, both formats; non-trivial = at least one commit and 5 successful mutations"),
+}
+SHARD = 20
+
+_FMT = {"bzr": "Bzr", "git": "Git"}
+
+
+def _coq_path(p):
+    if p == "":
+        return "[]"
+    return "[" + "; ".join(coq_bytes(seg.encode()) for seg in p.split("/")) + "]"
+
+
+def _coq_op(op):
+    k = op[0]
+    if k == "add": return f"OAdd {_coq_path(op[1])}"
+    if k == "mkdir": return f"OMkdir {_coq_path(op[1])}"
+    if k == "rmk": return f"ORemoveKeep {_coq_path(op[1])}"
+    if k == "rmf": return f"ORemoveForce {_coq_path(op[1])}"
+    if k == "ren": return f"ORename {_coq_path(op[1])} {_coq_path(op[2])}"
+    if k == "mv": return f"OMove {_coq_path(op[1])} {_coq_path(op[2])}"
+    if k == "put": return f"OPut {_coq_path(op[1])} {coq_bytes(CONTENTS[op[2]])}"
+    if k == "chmod": return f"OChmod {_coq_path(op[1])} {'true' if op[2] else 'false'}"
+    if k == "osrm": return f"OOsRm {_coq_path(op[1])}"
+    if k == "osmkdir": return f"OOsMkdir {_coq_path(op[1])}"
+    return {"commit": "OCommit", "revert": "ORevert", "reopen": "OReopen"}[k]
+
+
+def model_term(inp):
+    ops = inp["ops"]
+    # the model's reopen is the identity, so the forced re-opens need no op of their own
+    return f"run_case {_FMT[inp['fmt']]} [" + "; ".join(_coq_op(o) for o in ops) + "]"
+
+
+def _mirror_run(inp):
+    """(index of the first step the mirror calls unmodelled or None, list of per-step mirror errors)"""
+    import _c09_mirror as M
+    s = M.St(inp["fmt"])
+    errs = []
+    for i, op in enumerate(inp["ops"]):
+        e = M.step(s, op)
+        if e == "Unmodelled":
+            return i, errs
+        errs.append(e)
+    return None, errs
+
+
+def impl_obs(inp, obs):
+    """The part of the observation the model predicts: everything up to the first step that lies outside
+    the modelled domain (the model prints OT "unmodelled" there and stops)."""
+    if isinstance(obs, Err):
+        return obs
+    cut, _ = _mirror_run(inp)
+    if cut is None:
+        return obs
+    return list(obs[:cut]) + [Tag("unmodelled")]
+
+
+# ------------------------------------------------------------------ generator
+
+def _gen_ops(rng, fmt, n, names):
+    import _c09_mirror as M
+    s = M.St(fmt)
+    ops = []
+
+    def anypath():
+        d = rng.choice([1, 1, 1, 2, 2, 3])
+        return "/".join(rng.choice(names) for _ in range(d))
+
+    def known():
+        c = [M.S(p) for p in s.disk if all(len(x) == 1 for x in p)]
+        c += [M.S(e[0]) for e in s.inv.values() if e[0]] if fmt == "bzr" else [M.S(p) for p in s.index]
+        return rng.choice(c) if c and rng.random() < 0.85 else anypath()
+
+    def dirs():
+        return [""] + [M.S(p) for p, nd in s.disk.items() if nd[0] == "d" and len(p) < 3 and all(len(x) == 1 for x in p)]
+
+    def newchild():
+        d = rng.choice(dirs())
+        return (d + "/" if d else "") + rng.choice(names)
+
+    weights = (["add"] * 5 + ["mkdir"] * 3 + ["rmk"] * 2 + ["rmf"] * 2 + ["ren"] * 4 + ["mv"] * 3 + ["put"] * 6 +
+               ["chmod"] * 2 + ["osrm"] * 2 + ["osmkdir"] + ["commit"] * 3 + ["revert"] * 2 + ["reopen"])
+    guard = 0
+    while len(ops) < n and guard < 40 * n:
+        guard += 1
+        k = rng.choice(weights)
+        if k in ("add", "rmk", "rmf", "osrm"):
+            op = [k, known()]
+        elif k in ("mkdir", "osmkdir"):
+            op = [k, newchild()]
+        elif k == "ren":
+            op = [k, known(), newchild() if rng.random() < 0.8 else known()]
+        elif k == "mv":
+            op = [k, known(), rng.choice(dirs()) if rng.random() < 0.85 else known()]
+        elif k == "put":
+            op = [k, newchild() if rng.random() < 0.5 else known(), rng.randrange(len(CONTENTS))]
+        elif k == "chmod":
+            op = [k, known(), rng.random() < 0.6]
+        else:
+            op = [k]
+        if any(x == "" for x in op[1:2]):
+            continue
+        t = s.copy()
+        try:
+            e = M.step(t, op)
+        except Exception:
+            continue
+        if e == "Unmodelled":
+            if rng.random() < 0.9:
+                continue            # a few sequences end in an unmodelled step on purpose
+            ops.append(op)
+            break
+        if e is not None and rng.random() < 0.7:
+            continue
+        M.step(s, op)
+        ops.append(op)
+    return ops
+
+
+# fixed regression inputs: scenarios named in the property record + finding witnesses
+_CORPUS = [
+    # rename into a removed directory / re-add after remove / kind change then revert (properties.jsonl "why")
+    ("bzr", [["mkdir", "d"], ["put", "a", 1], ["add", "a"], ["commit"], ["rmk", "d"], ["ren", "a", "d/a"], ["add", "d"], ["ren", "a", "d/a"], ["commit"]]),
+    ("bzr", [["put", "a", 1], ["add", "a"], ["commit"], ["rmk", "a"], ["add", "a"], ["commit"], ["rmf", "a"], ["put", "a", 2], ["add", "a"], ["revert"]]),
+    ("bzr", [["put", "a", 1], ["add", "a"], ["commit"], ["osrm", "a"], ["osmkdir", "a"], ["revert"], ["osrm", "a"], ["osmkdir", "a"], ["commit"], ["revert"]]),
+    ("git", [["put", "a", 1], ["add", "a"], ["commit"], ["osrm", "a"], ["osmkdir", "a"], ["revert"]]),
+    ("bzr", [["mkdir", "a"], ["mkdir", "a/b"], ["put", "a/b/c", 1], ["add", "a/b/c"], ["commit"], ["ren", "a", "d"], ["chmod", "d/b/c", True], ["put", "d/b/c", 2], ["mv", "d/b", ""], ["revert"]]),
+    ("git", [["osmkdir", "a"], ["osmkdir", "a/b"], ["put", "a/b/c", 1], ["add", "a/b/c"], ["commit"], ["ren", "a", "d"], ["chmod", "d/b/c", True], ["commit"], ["rmf", "d"], ["revert"]]),
+    ("bzr", [["put", "a", 1], ["add", "a"], ["commit"], ["ren", "a", "b"], ["put", "a", 2], ["ren", "a", "c"], ["commit"]]),
+    ("bzr", [["put", "a", 1], ["add", "a"], ["commit"], ["rmk", "a"], ["ren", "a", "b"], ["commit"], ["revert"]]),
+    # candidate findings (see notes/C09.md); each must still agree with the model
+    ("bzr", [["mkdir", "a"], ["mkdir", "a/b"], ["ren", "a", "a/b/c"], ["mv", "a", "a/b"]]),                                   # C09-bzr-oserror-subscript
+    ("bzr", [["mkdir", "a"], ["put", "c", 1], ["add", "c"], ["osrm", "a"], ["ren", "c", "a/c"]]),                            # C09-bzr-oserror-subscript
+    ("bzr", [["mkdir", "d"], ["put", "d/x", 1], ["add", "d/x"], ["commit"], ["rmk", "d"], ["put", "d/y", 2], ["add", "d/y"]]),  # C09-bzr-add-under-removed
+    ("git", [["osmkdir", "c"], ["put", "c/b", 1], ["add", "c/b"], ["commit"], ["rmf", "c/b"], ["revert"]]),                   # C09-git-revert-keyerror
+    ("git", [["osmkdir", "d"], ["put", "d/x", 1], ["add", "d/x"], ["commit"], ["osrm", "d"], ["put", "d", 1], ["reopen"]]),    # C09-git-notadir
+    ("git", [["put", "b", 1], ["add", "b"], ["osrm", "b"], ["osmkdir", "b"], ["commit"], ["reopen"]]),                        # C09-git-commit-dirified
+    ("git", [["put", "a", 2], ["add", "a"], ["commit"], ["put", "d", 2], ["add", "d"], ["put", "a", 0], ["revert"]]),          # C09-git-revert-rename-detect
+    ("git", [["mkdir", "a"], ["mkdir", "a/b"], ["ren", "a", "a/b/c"]]),                                                     # C09-git-oserror
+]
+
+
+def corpus():
+    return [{"fmt": f, "ops": o} for f, o in _CORPUS]
+
+
+def cases(rng, tier):
+    n = 75 if tier == "quick" else 1500
+    for i in range(n):
+        for fmt in ("bzr", "git"):
+            names = NAMES[: rng.choice([3, 4, 4, 6])]
+            yield {"fmt": fmt, "ops": _gen_ops(rng, fmt, rng.randint(8, 25), names)}
+
+
+# ------------------------------------------------------------------ the property itself, on the implementation
+
+def _rows_by_path(view):
+    return {r[0]: r for r in view}
+
+
+def oracle(inp, obs):
+    if isinstance(obs, Err):
+        return "driver error " + str(obs)
+    fmt = inp["fmt"]
+    for i, (op, step) in enumerate(zip(inp["ops"], obs)):
+        status, view, changes, extras, same = step
+        where = f"step {i} {op}"
+        # (1) the API refuses with a breezy error, never with an internal one
+        if isinstance(status, Err) and str(status) in ("TypeError", "KeyError", "AttributeError", "AssertionError",
+                                                      "IndexError", "ValueError", "OSError", "InconsistentDelta"):
+            return f"{where}: internal error {status} instead of a refusal"
+        if op[0] in ("commit", "revert") and isinstance(status, Err):
+            return f"{where}: {op[0]} failed with {status}"
+        # (2) status can be computed
+        if isinstance(changes, Err):
+            return f"{where}: iter_changes raised {changes}"
+        # (3) persisted state read back after re-opening is identical
+        if not same:
+            return f"{where}: state differs after WorkingTree.open"
+        # (4) valid tree: parents of versioned paths are versioned
+        vp = {r[0] for r in view}
+        for p in vp:
+            if "/" in p and p.rsplit("/", 1)[0] not in vp:
+                return f"{where}: versioned {p!r} has an unversioned parent"
+        # (5) status is sound and complete w.r.t. the versioned view: every path iter_changes calls versioned
+        #     in the working tree is listed by all_versioned_paths, and kinds/exec bits agree with the view
+        rows = _rows_by_path(view)
+        for c in changes:
+            p1 = c[1]
+            if p1 is not None and c[4] and p1 != "":
+                if p1 not in rows:
+                    return f"{where}: iter_changes reports versioned {p1!r} that all_versioned_paths does not list"
+                r = rows[p1]
+                k = None if str(r[1]) == "missing" else str(r[1])
+                if (None if c[6] is None else str(c[6])) != k and not (fmt == "git" and k == "missing"):
+                    return f"{where}: iter_changes kind {c[6]} of {p1!r} differs from the tree's {r[1]}"
+        # (6) commit then clean / revert restores basis
+        if op[0] in ("commit", "revert") and status == "ok" and [c for c in changes if not (c[0] is None and c[1] == "")]:
+            return f"{where}: status not empty after {op[0]}: {changes[:3]}"
+    return None
+
+
+def finding_matches(fid, inp, obs, why):
+    ops = inp["ops"]
+    kinds = [o[0] for o in ops]
+    if fid == "C09-bzr-oserror-subscript":
+        return inp["fmt"] == "bzr" and "TypeError" in why and ("ren" in kinds or "mv" in kinds)
+    if fid == "C09-bzr-add-under-removed":
+        return (inp["fmt"] == "bzr" and ("rmk" in kinds or "rmf" in kinds) and ("add" in kinds or "mkdir" in kinds)
+                and ("all_versioned_paths does not list" in why or "unversioned parent" in why))
+    if fid == "C09-git-revert-keyerror":
+        return inp["fmt"] == "git" and "revert" in kinds and "KeyError" in why
+    if fid == "C09-git-notadir":
+        return inp["fmt"] == "git" and "NotADirectoryError" in why
+    if fid == "C09-git-commit-dirified":
+        return inp["fmt"] == "git" and "status not empty after commit" in why and "osmkdir" in kinds or "mkdir" in kinds and "status not empty after commit" in why and inp["fmt"] == "git"
+    if fid == "C09-git-revert-rename-detect":
+        return inp["fmt"] == "git" and "status not empty after revert" in why
+    if fid == "C09-git-oserror":
+        return inp["fmt"] == "git" and "internal error OSError" in why
+    return False
+
+
+def nontrivial(inp, obs):
+    if isinstance(obs, Err):
+        return False
+    okc = sum(1 for op, st in zip(inp["ops"], obs) if st[0] == "ok" and op[0] not in ("reopen",))
+    return okc >= 5 and any(op[0] == "commit" and st[0] == "ok" for op, st in zip(inp["ops"], obs))
+
+
+def distribution(inputs, observations):
+    d = {"fmt": {}, "ops": {}, "refused": {}, "unmodelled_tail": 0, "length": {}}
+    for i, o in zip(inputs, observations):
+        d["fmt"][i["fmt"]] = d["fmt"].get(i["fmt"], 0) + 1
+        ln = str(len(i["ops"]) // 5 * 5)
+        d["length"][ln] = d["length"].get(ln, 0) + 1
+        if isinstance(o, Err):
+            continue
+        if _mirror_run(i)[0] is not None:
+            d["unmodelled_tail"] += 1
+        for op, st in zip(i["ops"], o):
+            d["ops"][op[0]] = d["ops"].get(op[0], 0) + 1
+            if st[0] != "ok":
+                k = op[0] + ":" + str(st[0])
+                d["refused"][k] = d["refused"].get(k, 0) + 1
+    return d
+
+
+def shrink(inp, fails):
+    ops = list(inp["ops"])
+    changed = True
+    while changed:
+        changed = False
+        for i in range(len(ops) - 1, -1, -1):
+            cand = dict(inp, ops=ops[:i] + ops[i + 1:])
+            if fails(cand):
+                ops = cand["ops"]
+                changed = True
+    return dict(inp, ops=ops)
